@@ -251,12 +251,12 @@ pub fn rseq(
             let res = std::panic::catch_unwind(|| txtpp::verif::preprocess_one(&sh, &ba, &fp, md, trailing_newline));
             let _ = tx.send(res);
         });
-        let res = match rx.recv_timeout(std::time::Duration::from_secs(90)) {
+        let res = match rx.recv_timeout(std::time::Duration::from_secs(60)) {
             Ok(r) => r,
             Err(_) => {
                 r.hung = Some(s.path.clone());
                 r.ok.insert(i, false);
-                r.err_text.insert(i, "reference pass did not return within 90 s".into());
+                r.err_text.insert(i, "reference pass did not return within 60 s".into());
                 REF_HUNG.store(true, std::sync::atomic::Ordering::SeqCst);
                 break;
             }
